@@ -12,7 +12,7 @@ Contracts (each evaluated once per cue unless stated):
           neither raises an internal exception nor disturbs the other cues
 
 Inputs: SRT texts generated from the cue grammar of the property (see `gen_file`), per-field exhaustive time grids, frame-boundary
-times for 7 frame rates, generated model documents.  All randomness from rng(seed, salt)."""
+times for 8 frame rates, generated model documents.  All randomness from rng(seed, salt)."""
 import hashlib
 import io
 import logging
@@ -29,7 +29,7 @@ SEED = 0
 WHITE = (255, 255, 255, 255)
 # sizes: {quick?: n}
 N_GRAMMAR_ITEMS = {True: 16, False: 64}
-N_GRAMMAR_FILES = {True: 4000, False: 40000}          # per item
+N_GRAMMAR_FILES = {True: 2500, False: 12000}          # per item
 N_FRAME_TIMES = {True: 2000, False: 20000}              # per frame rate
 N_RT_DOCS = {True: 250, False: 4000}                   # per item (16 items)
 N_SAFETY = {True: 25, False: 400}                     # per kind per item (4 items)
@@ -175,7 +175,7 @@ def compare_cue(p, cue, cue_nobrace):
 
 
 def cue_fp(cue):
-  return hashlib.md5(repr((cue.begin, cue.end, cue.raw_lines)).encode("utf-8")).hexdigest()[:16]
+  return int.from_bytes(hashlib.md5(repr((cue.begin, cue.end, cue.raw_lines)).encode("utf-8")).digest()[:8], "big")
 
 
 def mini_text(cue_index, text):
